@@ -78,6 +78,11 @@ pub struct XExtra {
     /// `ulimit -s` gives the main thread of the executable
     #[serde(default)]
     pub stack_kib: Option<u32>,
+    /// xargs runs in a working directory whose absolute path is about this many bytes long;
+    /// a command spelled `./NAME` is then a link to /bin/true placed there (a relative command
+    /// name must not cost more on the child's stack than its own bytes)
+    #[serde(default)]
+    pub long_cwd: Option<usize>,
 }
 
 #[derive(Clone, Debug, PartialEq, Eq, Serialize, Deserialize)]
@@ -216,6 +221,13 @@ pub fn run_xargs_with(sc: &XargsScenario, plan: &[ReadOp], ctx: &mut Ctx) -> Xar
         budget: READ_BUDGET,
     };
     let _ = std::env::set_current_dir(&ctx.scratch);
+    if let Some(len) = sc.extra.long_cwd {
+        if crate::find::enter_long_cwd(ctx, len).is_ok() {
+            if let Some(name) = sc.cmd.first().and_then(|c| c.strip_prefix("./")) {
+                let _ = std::os::unix::fs::symlink("/bin/true", name);
+            }
+        }
+    }
     let arg_file = sc.opts.iter().any(|o| matches!(o, Opt::ArgFile));
     if arg_file {
         let _ = std::fs::write(ctx.scratch.join(ARG_FILE_NAME), &sc.input.0);
@@ -370,6 +382,9 @@ pub fn run_xargs_with(sc: &XargsScenario, plan: &[ReadOp], ctx: &mut Ctx) -> Xar
             out.expect("run result")
         }
     };
+    if sc.extra.long_cwd.is_some() {
+        crate::find::leave_long_cwd(ctx);
+    }
     if let Some(old) = saved_path {
         match old {
             Some(v) => std::env::set_var("PATH", v),
